@@ -8,6 +8,9 @@ import sys
 import tempfile
 from concurrent.futures import ThreadPoolExecutor
 
+sys.path.insert(0, os.path.dirname(os.path.abspath(__file__)))
+import common
+
 HERE = os.path.dirname(os.path.abspath(__file__))
 VERIF = os.path.dirname(HERE)
 REPO = "/repo"
@@ -16,23 +19,19 @@ ALL = ["C%02d" % i for i in range(1, 21)]
 
 def one(pd):
     name = os.path.basename(pd)
-    base = tempfile.mkdtemp(prefix="casslint-ref-")
-    dst = os.path.join(base, "repo")
-    os.makedirs(dst)
-    shutil.copytree(os.path.join(REPO, "src"), os.path.join(dst, "src"))
-    for f in ("Cargo.toml", "Cargo.lock"):
-        shutil.copy(os.path.join(REPO, f), os.path.join(dst, f))
+    base, dst = common.make_copy("casslint-ref-")
     p = subprocess.run(["patch", "-p1", "-s", "-i", pd], cwd=dst, capture_output=True, text=True)
     out = []
     if p.returncode != 0:
         shutil.rmtree(base, ignore_errors=True)
         return name, ["PATCH DOES NOT APPLY: %s" % (p.stdout + p.stderr)[:200]]
+    res = common.run_props(dst, ALL)
     for prop in ALL:
-        q = subprocess.run([os.path.join(VERIF, "check"), prop, "--root", dst], capture_output=True, text=True)
-        if q.returncode != 0:
-            fails = [l.strip() for l in q.stdout.splitlines() if l.strip().startswith("FAIL")]
-            viol = [l.strip() for l in q.stdout.splitlines() if l.startswith("  ") and not l.strip().startswith(("ok", "FAIL", "note", "consequence"))]
-            out.append("%s: %s" % (prop, " || ".join((fails or viol)[:4])[:700]))
+        rc, text = res[prop]
+        if rc != 0:
+            fails = [l.strip() for l in text.splitlines() if l.strip().startswith("FAIL")]
+            viol = [l.strip() for l in text.splitlines() if l.startswith("  ") and not l.strip().startswith(("ok", "FAIL", "note", "consequence"))]
+            out.append("%s: %s" % (prop, " || ".join((fails or viol or [text[-300:]])[:4])[:700]))
     shutil.rmtree(base, ignore_errors=True)
     return name, out
 
@@ -43,7 +42,7 @@ def main():
     d = os.path.abspath(d)
     files = sorted(os.path.join(d, f) for f in os.listdir(d) if f.endswith(".diff") and (not only or any(o in f for o in only)))
     bad = 0
-    with ThreadPoolExecutor(max_workers=3) as ex:
+    with ThreadPoolExecutor(max_workers=common.JOBS) as ex:
         for name, out in ex.map(one, files):
             if out:
                 bad += 1
